@@ -4,6 +4,7 @@ package node
 
 import (
 	"fmt"
+	"net"
 	"strings"
 
 	"ergo.services/ergo/gen"
@@ -124,6 +125,84 @@ func (nw *NetWorld) connect() {
 		vsched.Go(func() { b.network.serve(b.network.defaultProto, pc, nil) })
 	})
 	ex.RunSetup()
+}
+
+
+// connectDialing declares (does not run) the threads of a connection set-up in which the initiator
+// fills the pool itself, the way network.connect + enp.Serve do: the first link is made by hsA/hsB, the
+// further ones by the real Serve loop through a dial function that creates an in-memory link, lets the
+// acceptor's side treat it as network.accept treats an incoming TCP connection, and runs the real Join.
+// onB is called on B's side once its connection is registered.
+func (nw *NetWorld) connectDialing(onA, onB func()) {
+	a, b := nw.a.n, nw.b.n
+	le := &linkEnds{}
+	le.ca, le.cb = vconn.Pair("a0", "b0")
+	nw.links = append(nw.links, le)
+	ex := nw.ex
+	hoA := gen.HandshakeOptions{Cookie: a.network.cookie, Flags: a.network.flags, MaxMessageSize: a.network.maxmessagesize}
+	hoB := gen.HandshakeOptions{Cookie: b.network.cookie, Flags: b.network.flags, MaxMessageSize: b.network.maxmessagesize}
+	acceptB := func(cb *vconn.Conn) {
+		// network.accept, from the handshake on
+		res, err := b.network.defaultHandshake.Accept(b, cb, hoB)
+		if err != nil || res.Peer == "" {
+			cb.Close()
+			return
+		}
+		if v, exist := b.network.connections.Load(res.Peer); exist {
+			if err := v.(gen.Connection).Join(cb, res.ConnectionID, nil, res.Tail); err != nil {
+				cb.Close()
+			}
+			return
+		}
+		pc, err := b.network.defaultProto.NewConnection(b, res, createLog(gen.LogLevelDisabled, b.dolog))
+		if err != nil {
+			cb.Close()
+			return
+		}
+		if _, err := b.network.registerConnection(res.Peer, pc); err != nil {
+			cb.Close()
+			return
+		}
+		pc.Join(cb, res.ConnectionID, nil, res.Tail)
+		nw.pb = pc
+		if onB != nil {
+			onB()
+		}
+		vsched.Go(func() { b.network.serve(b.network.defaultProto, pc, nil) })
+	}
+	redial := func(dsn, id string) (net.Conn, []byte, error) {
+		k := len(nw.links)
+		l := &linkEnds{}
+		l.ca, l.cb = vconn.Pair(fmt.Sprintf("a%d", k), fmt.Sprintf("b%d", k))
+		nw.links = append(nw.links, l)
+		vsched.Go(func() { acceptB(l.cb) })
+		tail, err := a.network.defaultHandshake.Join(a, l.ca, id, hoA)
+		if err != nil {
+			return nil, nil, err
+		}
+		return l.ca, tail, nil
+	}
+	ex.Thread("hsA", func() {
+		hs, pr := a.network.defaultHandshake, a.network.defaultProto
+		res, err := hs.Start(a, le.ca, hoA)
+		if err != nil {
+			ex.Fail("handshake-failed", "start: %v", err)
+			return
+		}
+		pc, err := pr.NewConnection(a, res, createLog(gen.LogLevelDisabled, a.dolog))
+		if err != nil {
+			ex.Fail("handshake-failed", "new connection A: %v", err)
+			return
+		}
+		a.network.registerConnection(res.Peer, pc)
+		pc.Join(le.ca, res.ConnectionID, redial, res.Tail)
+		nw.pa, nw.id = pc, res.ConnectionID
+		if onA != nil {
+			onA()
+		}
+		vsched.Go(func() { a.network.serve(pr, pc, redial) })
+	})
+	ex.Thread("hsB", func() { acceptB(le.cb) })
 }
 
 // addLink joins one more in-memory link to the connection through the real Join handshake.
